@@ -69,8 +69,10 @@ type Engine struct {
 	recInfo   []recFun
 	inlineCount int
 	usedLemmas  map[string]bool
+	rawIface    bool
 	allRefs   map[string]bool
 	refDeps   map[string][]string
+	privTypes map[string]types.Type
 }
 
 type BoundedCheck struct {
